@@ -6,6 +6,7 @@ import contextlib
 import os
 import copy
 import importlib
+import json
 import numbers
 import pickle
 
@@ -242,6 +243,15 @@ class SelectorWorld:
                 for i, op in enumerate(tr["ops"]):
                     self.events += 1
                     getattr(self, "op_" + op["op"])(op, i)
+                    # the history applied to each object so far, as data (clock lanes are only
+                    # comparable where their objects went through the SAME operations with the
+                    # same outcomes - ok / failed / skipped)
+                    mo = self.meta.get(op.get("obj")) if op.get("obj") else None
+                    if mo is not None:
+                        desc = {k: v for k, v in op.items() if k not in ("obj", "env", "lane", "lane_of", "from")}
+                        mo.setdefault("opsig", []).append(
+                            (json.dumps(desc, sort_keys=True, default=str), mo.get("fits"), mo.get("ok_fits"))
+                        )
                 if self.pid == "C06":
                     self.c06_lanes()
                     forced = {tuple(o["env"]["clock"].get("bits", [])) for o in tr["ops"] if o["op"] == "FIT" and (o.get("env") or {}).get("clock", {}).get("mode") == "force"}
@@ -503,7 +513,13 @@ class SelectorWorld:
                 return
         if self.pid == "C08" and not op.get("expect"):
             self.c08_prepare(name, m, op)
-        if not warm:
+        if op.get("rejected_refit") and m.get("cold_X"):
+            # the refit that is going to be rejected is given the values in the memory layout
+            # of the object's last cold fit: whatever it recomputes before the rejection
+            # (PCov-FPS rebuilds its modified Gram matrix) then rounds as it did originally,
+            # and the continuation is compared with the twin to the usual allowance
+            X = self.heap.twin_copy_like(op["X"], m["cold_X"])
+        elif not warm:
             m["cold_X"] = op["X"]  # the array (hence the memory layout) of the latest cold fit
         rec = FitRecord(obj, info["axis"], tables=self.pid == "C06")
         self._cur = rec
@@ -1049,7 +1065,7 @@ class SelectorWorld:
             self.count("calibrations")
         if not stopped:
             m["final"] = [int(v) % n_from for v in final_idx]
-            m.setdefault("finals", {})[m["fits"]] = (m["final"], op["X"])
+            m.setdefault("finals", {})[m["fits"]] = (m["final"], op["X"], len(m.get("opsig", [])))
 
     def c06_lanes(self):
         """Clock independence: lanes are identical objects/histories under different
@@ -1063,8 +1079,13 @@ class SelectorWorld:
             base_name, base = members[0]
             for name, m in members[1:]:
                 for fit_no in sorted(set(base["finals"]) & set(m["finals"])):
-                    (a, xa), (b, xb) = base["finals"][fit_no], m["finals"][fit_no]
+                    (a, xa, na), (b, xb, nb) = base["finals"][fit_no], m["finals"][fit_no]
                     if xa != xb:
+                        continue
+                    if na != nb or base.get("opsig", [])[:na] != m.get("opsig", [])[:nb]:
+                        # not the same history (an operation failed or was skipped in one lane
+                        # only - e.g. the known zero-calibration refit -, or a reduced trace)
+                        self.count("lane_pairs_with_different_histories_skipped")
                         continue
                     self.count("lane_pairs")
                     if a == b:
